@@ -55,6 +55,14 @@ class C17(Check):
             js.append(dict(kind='abscurv_long', n=n))
         for n in ([40] if q else [31, 32, 33, 40, 130]):
             js.append(dict(kind='speed_long', n=n))
+        # value-kind probe: timestamp fields held as numpy integers; aliasing probes: a closing copy of the first fix appended (loop(add=True)),
+        # a time window extracted and measured before the whole track is measured
+        js.append(dict(kind='speed_long', n=16, tk='npint'))
+        js.append(dict(kind='speed_long', n=16, tk='npfloat'))
+        for hist in ('loop', 'window'):
+            js.append(dict(kind='abscurv_long', n=20, hist=hist))
+            if hist == 'window':      # (the closing copy repeats the first timestamp: outside the non-decreasing domain of the speed claim)
+                js.append(dict(kind='speed_long', n=20, hist=hist))
         return js
 
     def patches(self, job):
@@ -91,12 +99,41 @@ class C17(Check):
         k[11] = k[12] = k[10]
         return xs, ys, zs, [v // 8 for v in k], [125 * (v % 8) for v in k]
 
+    @staticmethod
+    def _tk(job, vals):
+        if job.get('tk'):
+            import numpy as np
+            conv = {'npint': np.int64, 'npfloat': np.float64}[job['tk']]
+            return [conv(v) for v in vals]
+        return vals
+
+    @staticmethod
+    def _history(job, tr, xs, ys, secs, mss, n):
+        """returns the track to measure, its coordinates / instants, its size and (window, offset) when a window was measured first"""
+        cin = sys.modules[CIN]
+        h = job.get('hist')
+        if h == 'loop':
+            tr.loop(add=True)
+            return tr, xs + [xs[0]], ys + [ys[0]], secs + [secs[0]], mss + [mss[0]], n + 1, None
+        if h == 'window':
+            a, b = 4, n - 5
+            w = tr.extractSpanTime(tr.getObs(a).timestamp, tr.getObs(b).timestamp)
+            if w.size() != b - a + 1:
+                raise core.Unsupported('the window does not hold the expected fixes')
+            if job['kind'] == 'abscurv_long':
+                cin.computeAbsCurv(w)
+            else:
+                w.estimate_speed()
+            return tr, xs, ys, secs, mss, n, (w, a)
+        return tr, xs, ys, secs, mss, n, None
+
     def _long_path(self, ctx, job):
         eng = ctx.eng
         n = job['n']
         cin = sys.modules[CIN]
         xs, ys, zs, secs, mss = self._long_inputs(eng, None, n)
-        tr = build(n, xs, ys, zs, secs, mss, [float(i) for i in range(n)])
+        tr = build(n, xs, ys, zs, self._tk(job, secs), self._tk(job, mss), [float(i) for i in range(n)])
+        tr, xs, ys, secs, mss, n, extra = self._history(job, tr, xs, ys, secs, mss, n)
         tol = z3.Q(1, 10 ** 6)
 
         def leg(i, j):
@@ -123,6 +160,14 @@ class C17(Check):
                         return
                 total = z3.Sum(legs)
                 ctx.prove(z3.And(zreal(ac[-1]) - total <= n * tol, total - zreal(ac[-1]) <= n * tol), 'long track: the abscissa ends at the planimetric length of the track')
+                if extra is not None:       # the window measured earlier keeps its own abscissa
+                    w, a = extra
+                    wa = w.getAnalyticalFeature('abs_curv')
+                    if len(wa) != w.size() or not ctx.prove(zreal(wa[0]) == 0, 'the abscissa of a window extracted earlier still starts at 0 after the whole track was measured'):
+                        return
+                    for i in range(1, w.size()):
+                        if not ctx.prove(close(zreal(wa[i]) - zreal(wa[i - 1]), leg(a + i, a + i - 1)), 'the abscissa of a window extracted earlier still grows by the planimetric distances after the whole track was measured'):
+                            return
                 return
             sp = tr.estimate_speed()
             ctx.reach()
@@ -156,7 +201,11 @@ class C17(Check):
         n = job['n']
         cin = sys.modules[CIN]
         xs, ys, zs, secs, mss = self._long_inputs(None, inp, n)
-        tr = build(n, xs, ys, zs, secs, mss, [float(i) for i in range(n)])
+        tr = build(n, xs, ys, zs, self._tk(job, secs), self._tk(job, mss), [float(i) for i in range(n)])
+        try:
+            tr, xs, ys, secs, mss, n, extra = self._history(job, tr, xs, ys, secs, mss, n)
+        except core.Unsupported:
+            return dict(violation=None, outputs={})
         d2 = lambda i, j: math.hypot(xs[i] - xs[j], ys[i] - ys[j])
         try:
             if job['kind'] == 'abscurv_long':
@@ -169,6 +218,11 @@ class C17(Check):
                         return dict(violation='%d-fix track: abs_curv goes from %r to %r at index %d, the planimetric distance is %r' % (n, ac[i - 1], ac[i], i, d2(i, i - 1)), outputs=out)
                 if abs(ac[-1] - sum(d2(i, i - 1) for i in range(1, n))) > 1e-6:
                     return dict(violation='%d-fix track: abs_curv ends at %r, the planimetric length is %r' % (n, ac[-1], sum(d2(i, i - 1) for i in range(1, n))), outputs=out)
+                if extra is not None:
+                    w, a = extra
+                    wa = w.getAnalyticalFeature('abs_curv')
+                    if len(wa) != w.size() or wa[0] != 0 or any(abs((wa[i] - wa[i - 1]) - d2(a + i, a + i - 1)) > 1e-6 for i in range(1, w.size())):
+                        return dict(violation='the abscissa of the window measured before the whole track is now %r' % (list(wa),), outputs=out)
                 return dict(violation=None, outputs=out)
             sp = tr.estimate_speed()
             out = dict(first=float(sp[0]))
